@@ -134,6 +134,8 @@ def run(chk):
         parts = i.split(" ", 3)
         if i == "panic":
             why = "marshalling a supported type panicked"
+        elif i.startswith("ok x err") and i.split(" ")[1] == "x":
+            continue        # every field empty and optional: nothing is written, and an empty text holds no paragraph to read back
         elif len(parts) < 4 or parts[0] != "ok" or parts[2] != "ok":
             why = "marshalling or unmarshalling a supported value failed"
         else:
